@@ -418,11 +418,17 @@ where
         is_cap_size_delta_usd_allowed: kani::any(),
     };
     let delta: T = kani::any();
-    let a = DecreasePosition::try_new(p, prices, delta, None, T::zero(), flags);
+    // the action borrows the position: a by-value position inside `Result<DecreasePosition<_>, Error>`
+    // is moved through an enum payload, which CBMC handles byte-wise (very slow)
+    let mut pos = p;
+    let mut pos0 = p;
+    let a = DecreasePosition::try_new(&mut pos0, prices, delta, None, T::zero(), flags);
     let Ok(a) = a else {
         core::mem::forget(a);
         return;
     };
+    // re-seat on a fresh handle (the handle read back from the `Result` payload is imprecise for CBMC)
+    let a = a.verif_with_position(&mut pos);
     // reference: health under the liquidation thresholds, min collateral value included
     let health = health_ref(self_oracle, &p, &prices, true, true);
     let gate = a.verif_check_liquidation();
@@ -450,20 +456,20 @@ where
     core::mem::forget(gate);
 }
 
-//@ prop=C09 tier=thorough kind=hold
+//@ prop=C09 tier=quick kind=hold
 //@ enc=DecreasePosition::try_new, DecreasePosition::check_liquidation, PositionExt::check_liquidatable (pnl_value, cap_pnl, collateral_value, position_price_impact, position_fees, check_collateral)
 //@ bound=T=u8, DECIMALS=1: state space of c09_check_liquidatable_exact_long_sc_u8, every size delta and flag combination
-//@ stubs=none; reference = exact remaining-collateral rule in wider integers (pnl with trader cap, liquidation thresholds, min collateral value); hook: DecreasePosition::verif_check_liquidation
+//@ stubs=none; reference = exact remaining-collateral rule in wider integers (pnl with trader cap, liquidation thresholds, min collateral value); hooks: DecreasePosition::verif_check_liquidation, verif_with_position
 #[kani::proof]
 #[kani::unwind(4)]
 fn c09_liquidation_gate_long_sc_u8() {
     liquidation_gate::<u8, 1>(0, false, Some((true, false)));
 }
 
-//@ prop=C09 tier=thorough kind=hold
+//@ prop=C09 tier=quick kind=hold
 //@ enc=DecreasePosition::try_new, DecreasePosition::check_liquidation, PositionExt::check_liquidatable (pnl_value, cap_pnl, collateral_value, position_price_impact, position_fees, check_collateral)
 //@ bound=T=u8, DECIMALS=1: state space of c09_check_liquidatable_exact_short_lc_u8, every size delta and flag combination
-//@ stubs=none; reference = exact remaining-collateral rule in wider integers (pnl with trader cap, liquidation thresholds, min collateral value); hook: DecreasePosition::verif_check_liquidation
+//@ stubs=none; reference = exact remaining-collateral rule in wider integers (pnl with trader cap, liquidation thresholds, min collateral value); hooks: DecreasePosition::verif_check_liquidation, verif_with_position
 #[kani::proof]
 #[kani::unwind(4)]
 fn c09_liquidation_gate_short_lc_u8() {
@@ -490,81 +496,6 @@ fn c09_liquidation_gate_all_pools_u8() {
 #[kani::unwind(4)]
 fn c09_liquidation_gate_with_fees_u8() {
     liquidation_gate::<u8, 1>(2, true, None);
-}
-
-/// The gate's own logic on a mostly concrete state: size 100 usd / 10 tokens, index price 10, long
-/// token price 2, short token price 1, min collateral value 5, leverage factor 10% (liquidation
-/// factor symbolic: none or any value); only the collateral amount, the optional liquidation factor,
-/// the side flags and the order flags are symbolic. The health then ranges over all four verdicts.
-fn liquidation_gate_concrete_state<T, const D: u8>()
-where
-    T: FixedPointOps<D> + CheckedSub + Copy + kani::Arbitrary + Into<u32> + num_traits::Bounded,
-    T::Signed: Num + Copy + kani::Arbitrary,
-{
-    let n = |v: u8| T::from_u8(v).unwrap();
-    let is_long: bool = kani::any();
-    let cl: bool = kani::any();
-    let mut m = VMarket::<T, D>::zero();
-    let pool = m.open_interest.get_mut(is_long);
-    if cl { pool.long = n(120) } else { pool.short = n(120) }
-    let pool = m.open_interest_in_tokens.get_mut(is_long);
-    if cl { pool.long = n(12) } else { pool.short = n(12) }
-    m.liquidity = VPool { long: n(100), short: n(100) };
-    m.pnl_factor.trader = Side2::both(T::UNIT);
-    m.position_params.min_collateral_value = n(5);
-    m.position_params.min_collateral_factor = n(1);
-    m.position_params.min_collateral_factor_for_liquidation = kani::any();
-    m.position_impact_params.exponent = T::UNIT;
-    m.funding_amount_per_size_adjustment = T::one();
-    let mut p = VPosition::<T, D>::zero(m, is_long, cl);
-    p.size_in_usd = n(100);
-    p.size_in_tokens = n(10);
-    p.collateral_amount = kani::any();
-    let prices = flat_prices(n(10), n(2), n(1));
-    let flags = DecreasePositionFlags {
-        is_insolvent_close_allowed: kani::any(),
-        is_liquidation_order: kani::any(),
-        is_cap_size_delta_usd_allowed: kani::any(),
-    };
-    let delta: T = kani::any();
-    let a = DecreasePosition::try_new(p, prices, delta, None, T::zero(), flags);
-    let Ok(a) = a else {
-        core::mem::forget(a);
-        return;
-    };
-    let health = liquidatable_ref(&p, &prices, true, true);
-    let gate = a.verif_check_liquidation();
-    if !flags.is_liquidation_order {
-        assert!(gate.is_ok());
-        kani::cover!(matches!(health, Some(Verdict::Leverage)), "ordinary decrease of an unhealthy position passes the gate");
-    } else {
-        match &gate {
-            Ok(()) => {
-                assert!(matches!(health, Some(v) if v != Verdict::Healthy));
-                kani::cover!(matches!(health, Some(Verdict::MinCollateral)), "admitted: below min collateral value");
-                kani::cover!(matches!(health, Some(Verdict::Leverage)), "admitted: leverage");
-            }
-            Err(gmsol_model::Error::NotLiquidatable) => {
-                assert!(matches!(health, Some(Verdict::Healthy)));
-                kani::cover!(true, "liquidation of a healthy position rejected");
-            }
-            Err(_) => {
-                // nothing overflows on this state except the collateral value for large amounts
-                assert!(w(p.collateral_amount) * w(if cl { n(2) } else { n(1) }) > w(T::max_value()) / 2);
-            }
-        }
-    }
-    core::mem::forget(gate);
-}
-
-//@ prop=C09 tier=quick kind=hold
-//@ enc=DecreasePosition::try_new, DecreasePosition::check_liquidation, PositionExt::check_liquidatable
-//@ bound=T=u8, DECIMALS=1: concrete position (100 usd / 10 tokens) and market (own open interest 120 / 12, liquidity 100/100, prices 10 / 2 / 1, min collateral value 5, leverage factor 10%); symbolic: collateral amount, optional liquidation factor, side, collateral token, size delta and the three order flags
-//@ stubs=none; reference = exact remaining-collateral rule in wider integers; hook: DecreasePosition::verif_check_liquidation. The same gate on the symbolic states of the c09_check_liquidatable_exact_* harnesses runs in the thorough tier
-#[kani::proof]
-#[kani::unwind(4)]
-fn c09_liquidation_gate_concrete_state_u8() {
-    liquidation_gate_concrete_state::<u8, 1>();
 }
 
 fn validate_implies_healthy<T, const D: u8>(level: u8, self_oracle: bool, side: Option<(bool, bool)>)
@@ -636,4 +567,5 @@ fn c09_validate_implies_healthy_short_sc_u8() {
 fn c09_validate_implies_healthy_with_fees_u8() {
     validate_implies_healthy::<u8, 1>(2, true, None);
 }
+
 
